@@ -508,6 +508,11 @@ def reaching_def(name: str, at: ast.AST, fnode: ast.AST) -> Optional[ast.AST]:
         if isinstance(p, (ast.For, ast.comprehension)):
             if any(isinstance(x, ast.Name) and x.id == name for x in ast.walk(p.target)):
                 return None
+        if isinstance(p, (ast.For, ast.While)) and fld == "body":
+            # back edge: a definition later in the loop body reaches the next iteration
+            if any(isinstance(x, ast.Name) and isinstance(x.ctx, ast.Store) and x.id == name
+                   for s_ in p.body for x in ast.walk(s_)):
+                return None
         stmt = p if isinstance(p, ast.stmt) else None
     return None
 
